@@ -142,9 +142,9 @@ def gen_config(rng, system=None, tier='quick', allow_noniso=True, out_of_window=
         maxB = int(rng.integers(30, 200))
         bins = int(rng.integers(10, 160))
     if noniso and system == 'alzr':
-        bins = min(bins, 40)
-        minB = min(minB, 30)
-        maxB = max(min(maxB, 60), minB + 5, bins)
+        bins = min(bins, 32)
+        minB = min(minB, 24)
+        maxB = max(min(maxB, 48), minB + 5, bins)
     cfg['pbm'] = {'cMin': 1e-10, 'cMax': cMax, 'bins': bins, 'minBins': minB, 'maxBins': maxB,
                   'adaptive': bool(rng.random() < 0.75)}
     cfg['grid_class'] = gclass
@@ -182,7 +182,8 @@ def gen_config(rng, system=None, tier='quick', allow_noniso=True, out_of_window=
     if max_steps is None:
         max_steps = 2500 if tier == 'quick' else 6000
         if noniso and system == 'alzr':
-            max_steps = 120 if tier == 'quick' else 400
+            # every step (every RK4 stage) of a fast ramp rebuilds the interfacial-composition table (0.3-1 s)
+            max_steps = (60 if cfg['iterator'] == 'euler' else 50) if tier == 'quick' else 400
         if system == 'almgsi':
             max_steps = min(max_steps, 1500 if tier == 'quick' else 3000)
         if cfg['iterator'] == 'rk4':
